@@ -456,6 +456,14 @@ def execute(spec):
                     fmag = float(np.max(np.abs(p1["fc_model"]))) * 0.01
                     drift = np.array([drng.uniform(-1, 1) for _ in range(3)]) * 0.2 * fmag
                     faults["output_with_net_force(drift)"] = 1
+                multiblock = calc in peers.MULTIBLOCK and drng.random() < 0.4
+                if multiblock:
+                    faults["output_with_earlier_force_block"] = 1
+
+                def earlier(F_):
+                    """forces of an earlier step of the same job: not the answer"""
+                    return [1.7 * np.array(F_) + 0.01 * float(np.max(np.abs(F_)) or 1.0)] if multiblock else None
+
                 any_reordered = False
                 pos_err_rel = 0.0
                 disp_amp = None
@@ -478,7 +486,7 @@ def execute(spec):
                             disp_amp = amp if disp_amp is None else min(disp_amp, amp)
                             steps["peer_jobs"] += 1
                             F, perm = peers.harmonic_forces_for_file(rc, ideal_A, p1["fc_model"], L)
-                            peers.write_force_output(calc, "output-%03d" % (i + 1), rc, F, energy=-10.0 - i, drift=drift)
+                            peers.write_force_output(calc, "output-%03d" % (i + 1), rc, F, energy=-10.0 - i, drift=drift, earlier_blocks=earlier(F))
                             outputs.append("output-%03d" % (i + 1))
                             continue
                         fn = displaced_file_for(calc, p1["new_files"], i + 1)
@@ -514,7 +522,7 @@ def execute(spec):
                         if calc in peers.PEER_CALCULATORS:
                             F, perm = peers.harmonic_forces_for_file(rc, ideal_A, p1["fc_model"], L)
                             out_name = {"turbomole": "job-%03d" % (i + 1)}.get(calc, "output-%03d" % (i + 1))
-                            peers.write_force_output(calc, out_name, rc, F, energy=-10.0 - i, drift=drift)
+                            peers.write_force_output(calc, out_name, rc, F, energy=-10.0 - i, drift=drift, earlier_blocks=earlier(F))
                             outputs.append(out_name)
                     if any_reordered:
                         probes["atoms_regrouped_by_species_in_written_files"] = 1
@@ -542,8 +550,9 @@ def execute(spec):
                                 fired.append(k)
                             elif k == "truncate" and files:
                                 victim = files[frng.randrange(len(files))]
-                                peers.truncate_in_force_block(calc, victim)
-                                fired.append(k)
+                                mid = frng.random() < 0.5
+                                peers.truncate_in_force_block(calc, victim, midline=mid, frac=frng.choice([0.3, 0.5, 0.8, 0.93, 0.97]))
+                                fired.append("truncate" + ("-midline" if mid else "") + ("(after-earlier-block)" if multiblock else ""))
                             elif k == "relaxation" and files and calc == "vasp":
                                 # the job was (wrongly) run as a relaxation: the output holds a second ionic step whose atoms
                                 # moved away from the displaced geometry, with that step's forces
@@ -609,10 +618,13 @@ def execute(spec):
                             fscale = max(1e-12, float(np.max(np.abs(p1["fc_model"]))) * 0.01 / Funit)
                             correct = len(ds["first_atoms"]) == p1["ndisp"] and max(errs) < 1e-6 * max(1.0, fscale / 1e-3) + 2e-9
                             probes["force_sets_max_error"] = max(errs)
-                        must_refuse = ("truncate" in fired) or len(files) != p1["ndisp"]
+                        trunc = [k for k in fired if k.startswith("truncate")]
+                        must_refuse = bool(trunc) or len(files) != p1["ndisp"]
                         detectable = calc in peers.CARRIES_POSITIONS
                         regrouped = any_reordered
                         site_f = "+".join(sorted(set(fired))) if fired else "fault-free"
+                        if trunc:
+                            site_f = trunc[0]  # a truncated output decides the verdict whatever else happened to the delivery
                         if not fired:
                             if written and not correct and not (regrouped and not detectable):
                                 V("force-sets-wrong", "%s:fault-free" % calc, max_err=probes.get("force_sets_max_error"))
